@@ -339,16 +339,25 @@ def gfortran_bad_lines(text, tag):
         capture_output=True, text=True, check=False)
     os.remove(path)
     bad = {}
+    folded = set()
     cur = None
     for line in res.stderr.split("\n"):
         match = re.match(r"^.*\.f90:(\d+):\d+:", line)
         if match:
             cur = int(match.group(1))
         elif line.startswith("Error:") and cur is not None:
-            bad.setdefault(cur, line)
+            # Only conformance / syntax diagnostics count.  Errors from
+            # constant folding (Division by zero, Arithmetic overflow,
+            # negative REAL to a REAL power ...) say that the *tree* denotes
+            # an invalid computation, not that the writer spelt it wrongly.
+            if re.search(r"Extension:|Syntax error|Unclassifiable|Expected|"
+                         r"Invalid character|Unexpected|Missing", line):
+                bad.setdefault(cur, line)
+            else:
+                folded.add(cur)
         elif line.startswith("Fatal Error") and cur is None:
             raise RuntimeError(f"gfortran failed: {res.stderr[-500:]}")
-    if res.returncode != 0 and not bad:
+    if res.returncode != 0 and not bad and not folded:
         raise RuntimeError(f"gfortran failed without located error: "
                            f"{res.stderr[-800:]}")
     return bad
